@@ -398,6 +398,41 @@ ApplyOne(bytes, r, sym) ==
 RECURSIVE ApplyW(_, _, _, _)
 ApplyW(bytes, rels, sym, i) == IF i > Len(rels) THEN bytes ELSE ApplyW(ApplyOne(bytes, rels[i], sym), rels, sym, i + 1)
 
+(* TARGET SECTIONS.  A relocation against a section must name the section    *)
+(* the field's offset is an offset INTO.  Per source section and DWARF       *)
+(* version of the unit, the cross-section offsets that exist are:            *)
+(*   .debug_info  debug_abbrev_offset -> .debug_abbrev; strp -> .debug_str;  *)
+(*                stmt_list -> .debug_line; ref_addr -> .debug_info;         *)
+(*                ranges    -> .debug_ranges  (v <= 4) | .debug_rnglists (5) *)
+(*                locations -> .debug_loc     (v <= 4) | .debug_loclists (5) *)
+(*                macros    -> .debug_macinfo (v <= 4) | .debug_macro        *)
+(*                line_strp -> .debug_line_str, str_offsets/addr bases (5)   *)
+(*   .debug_line  (5) line_strp -> .debug_line_str, strp -> .debug_str       *)
+(*   .debug_frame CIE pointer -> .debug_frame                                *)
+(*   list / aranges / expression operands -> .debug_info                     *)
+(* and the recorded addend (the offset) must lie inside the target section   *)
+(* as written.  (A writer that picks .debug_rnglists for a version 4         *)
+(* DW_AT_ranges produces the same bytes and is invisible when all sections   *)
+(* are based at 0; it is not invisible to this rule.)                        *)
+TargetSections(src, ver) ==
+    IF src = ".debug_info" \/ src = ".debug_types" THEN
+        {".debug_abbrev", ".debug_str", ".debug_line", ".debug_info"}
+        \cup (IF ver <= 4 THEN {".debug_ranges", ".debug_loc", ".debug_macinfo", ".debug_macro"}
+              ELSE {".debug_rnglists", ".debug_loclists", ".debug_macro", ".debug_line_str",
+                    ".debug_str_offsets", ".debug_addr"})
+    ELSE IF src = ".debug_line" THEN (IF ver >= 5 THEN {".debug_line_str", ".debug_str"} ELSE {})
+    ELSE IF src = ".debug_frame" THEN {".debug_frame"}
+    ELSE IF src \in {".debug_loc", ".debug_loclists", ".debug_ranges", ".debug_rnglists", ".debug_aranges"}
+         THEN {".debug_info"}
+    ELSE {}
+SecLen(lens, name) == LET I == {i \in DOMAIN lens : lens[i][1] = name} IN
+                      IF I = {} THEN 0 ELSE lens[CHOOSE i \in I : TRUE][2]
+TargetsOK(src, ver, rels, lens) ==
+    \A i \in DOMAIN rels :
+        rels[i].tk = "sec" =>
+            /\ rels[i].ts \in TargetSections(src, ver)
+            /\ FitsNat(rels[i].add) /\ ToNat(rels[i].add) <= SecLen(lens, rels[i].ts)
+
 (* Apply(recorded) = direct, whenever the direct write succeeds *)
 WriteTransparent(cs, sym) ==
     LET r == RunRec(W0, cs, 1)
